@@ -26,7 +26,11 @@ func c13(tier string) int {
 			{Family: "grpc-late", Params: "slots=2", From: 1, To: 4},
 		}
 	}
-	return seqCheck("C13", tier, 90*time.Second, 10*time.Minute, plans,
+	conf := []seq.Plan{{Family: "real-late", Params: "slots=1,levels=RU.RC", From: 3, To: 3}}
+	if tier == "thorough" {
+		conf = []seq.Plan{{Family: "real-late", Params: "slots=2,levels=RU.RC.RR", From: 4, To: 4}}
+	}
+	return seqCheckConf("C13", tier, 90*time.Second, 10*time.Minute, plans, conf,
 		"all histories up to the stated depth in which, besides Begin/Set/Commit/Rollback and autocommit writes, every operation (Get, GetReader, GetKeys, Set, SetReader, Create, Delete, Commit, Rollback) is issued through handles of finished transactions (committed, failed, rolled back) and through a transaction id the database never issued; after every step all open transactions (RU included), the autocommit handle and the finished handles read; restart and re-read at the end",
 		append([]string{"Commit/Rollback for a never-issued id are exercised through the gRPC client only (the inline client has no handle for it)"}, seqAssumptions...))
 }
